@@ -77,6 +77,11 @@ def check_cast(ctx, F, fn, label, poly):
         p = M.callee_path(t)
         if p in ("core::mem::size_of_val",) or p.startswith("core::panicking::") or p.startswith("core::fmt::"):
             continue
+        # pointer comparisons / casts on raw pointers (a debug assertion that the address is unchanged) read nothing through them
+        if p in ("core::ptr::eq", "core::ptr::addr_eq") or p.startswith(("core::ptr::const_ptr::<impl *const T>::cast", "core::ptr::const_ptr::<impl *const T>::addr",
+                                                                         "core::ptr::non_null::NonNull::<T>::as_ptr", "core::ptr::non_null::NonNull::<T>::cast",
+                                                                         "core::ptr::non_null::NonNull::<T>::addr", "core::ptr::const_ptr::<impl *const T>::is_aligned")):
+            continue
         bad.append(p)
     derefs = 0
     ctx.check(not bad, "K3", label + ":untouched", "between its creation and the size assertion the typed reference is only measured, never read",
